@@ -103,7 +103,11 @@ TOutcome == /\ Ev("outcome") /\ phase = "run"
             /\ phase' = "idle" /\ l' = l + 1
             /\ UNCHANGED <<zi, di, hi, seen, mod, st, hdr>>
 
-TNext == TInput \/ TZStart \/ TZone \/ TDecl \/ TNodeLen \/ THSkip \/ THStep \/ THLen \/ TOther \/ TOutcome
+\* the sentinel the harness writes after the last run: only a complete run may precede it
+TEnd == /\ Ev("end") /\ phase = "idle" /\ phase' = "ended" /\ l' = l + 1
+        /\ UNCHANGED <<zi, di, hi, seen, mod, st, hdr>>
+
+TNext == TEnd \/ TInput \/ TZStart \/ TZone \/ TDecl \/ TNodeLen \/ THSkip \/ THStep \/ THLen \/ TOther \/ TOutcome
 TSpec == TInit /\ [][TNext]_tvars
 
 Accepted == LET d == TLCGet("stats").diameter - 1
